@@ -253,19 +253,21 @@ pub fn generate(ctx: &mut Ctx) {
         ctx.count("seg_malformed");
         run_op(ctx, &op);
     }
-    // LAST: widths so small that 2^order / width overflows. On these the `nextafter`
-    // loop of `segment_to_segment` cannot make progress; a helper thread that hangs
-    // keeps spinning until the process exits, hence only a handful of them.
-    let hangs = ctx.budget(3, 6);
+    // LAST: widths so small that 2^order / width overflows. Before fix 524abd8 the
+    // `nextafter` loop of `segment_to_segment` could not make progress on these (it started
+    // from +inf). A helper thread that hangs keeps spinning until the process exits, hence
+    // a bounded number of them, generated last.
+    let hangs = ctx.budget(10, 40);
     ctx.notes.push(format!(
         "seg: intervals with 0 < max - min <= 2^(order-1024) (2^order / width = +inf) are generated {} times per run only, \
-         last: each one that hangs costs the 2 s watchdog and leaves a spinning thread",
+         last: if the hang repaired by 524abd8 came back, each would cost the 2 s watchdog and leave a spinning thread",
         hangs
     ));
     for i in 0..hangs {
         let (min, max, order) = gen_overflowing(ctx, i);
         ctx.count("seg_shape_overflowing_factor");
-        let vs = vec![min, max];
+        let mid = min + (max - min) / 2.0;
+        let vs = if min <= mid && mid <= max { vec![min, mid, max] } else { vec![min, max] };
         run_op(ctx, &format_seg(order, min, max, &vs));
     }
 }
